@@ -406,12 +406,15 @@ def inline_call(caller, bi, callee):
     # closures passed to a generic helper: `helper(|| user(..))` calls `f()` on a type parameter inside the helper; once the helper is
     # inlined the closure that runs is known, so the call is devirtualised to that closure's body
     closure_params = {}
+    fnitem_params = {}
     for k, a in enumerate(t["args"]):
         pl = a.get("move") or a.get("copy")
         if pl and not pl["proj"]:
             head = caller["locals"][pl["local"]].get("head", "") if pl["local"] < L0 else ""
             if head.startswith("closure:"):
                 closure_params[L0 + 1 + k] = head[len("closure:"):]
+        elif isinstance(a.get("fn"), dict):
+            fnitem_params[L0 + 1 + k] = a["fn"]          # a function item passed where a closure is expected (`unwrap_or_else(Shared::null)`)
     for cb in callee["blocks"]:
         nb = _shift(cb, L0, B0, P0)
         if const_params:
@@ -436,6 +439,35 @@ def inline_call(caller, bi, callee):
                 old = nb["term"]["callee"]
                 nb["term"]["callee"] = {"def": cid, "resolved": cid, "path": cid, "crate": "flurry", "name": "{closure}", "substs": [],
                                         "kind": "local", "devirtualized_from": old.get("path")}
+        if fnitem_params and nb["term"]["k"] == "call" and (nb["term"].get("callee") or {}).get("kind") == "param_trait_method" \
+                and (nb["term"]["callee"].get("trait") or "").endswith(("ops::FnOnce", "ops::FnMut", "ops::Fn")) and len(nb["term"]["args"]) == 2:
+            a0 = nb["term"]["args"][0].get("move") or nb["term"]["args"][0].get("copy")
+            src = a0["local"] if a0 and not a0["proj"] else None
+            fn_direct = nb["term"]["args"][0].get("fn") if isinstance(nb["term"]["args"][0].get("fn"), dict) else None
+            hops = 0
+            while src is not None and src not in fnitem_params and hops < 6 and fn_direct is None:
+                hops += 1
+                nxt = None
+                for st in nb["stmts"]:
+                    if st["k"] == "assign" and st["dst"]["local"] == src and not st["dst"]["proj"]:
+                        rv = st["rv"]
+                        if isinstance((rv.get("use") or {}).get("fn"), dict):
+                            fn_direct = rv["use"]["fn"]          # the constant argument was propagated into the body
+                        pl2 = (rv.get("use") or {}).get("move") or (rv.get("use") or {}).get("copy") or rv.get("ref")
+                        if pl2 and not [e for e in pl2["proj"] if e != "deref"]:
+                            nxt = pl2["local"]
+                src = nxt
+            if fn_direct is not None:
+                fnitem_params = dict(fnitem_params)
+                fnitem_params["direct"] = fn_direct
+                src = "direct"
+            tup = nb["term"]["args"][1].get("move") or nb["term"]["args"][1].get("copy")
+            unit = (tup is not None and not tup["proj"] and (
+                (callee["locals"][tup["local"] - L0].get("s") if 0 <= tup["local"] - L0 < len(callee["locals"]) else None) == "()")) or \
+                (tup is None and nb["term"]["args"][1].get("ty") == "()")
+            if src in fnitem_params and unit:
+                nb["term"]["callee"] = dict(fnitem_params[src], devirtualized_fn_item=True)
+                nb["term"]["args"] = []
         if in_cleanup:
             nb["cleanup"] = True
         ct = nb["term"]
@@ -539,7 +571,7 @@ def thread_known_returns(body, adts):
         dest = None
         seen = {pi}
         nst = 0
-        while cur is not None and len(chain) < 8 and cur not in seen:
+        while cur is not None and len(chain) < 16 and cur not in seen:
             seen.add(cur)
             blk = blocks[cur]
             if blk["cleanup"] != P["cleanup"]:
@@ -564,7 +596,7 @@ def thread_known_returns(body, adts):
                         ok = False
                         break
             nst += len(blk["stmts"])
-            if not ok or nst > 60:
+            if not ok or nst > 120:
                 break
             t = blk["term"]
             if t["k"] == "goto":
@@ -572,6 +604,13 @@ def thread_known_returns(body, adts):
                 cur = t["target"]
                 continue
             if t["k"] == "drop" and not (t["place"]["local"] in alias or t["place"]["local"] in discr):
+                chain.append((blk["stmts"], t))
+                cur = t["target"]
+                continue
+            if t["k"] == "call" and (t.get("callee") or {}).get("def", "").endswith("mem::drop") and t.get("target") is not None \
+                    and not (t.get("dst") and t["dst"]["local"] in (alias | discr)) \
+                    and not any((a.get("move") or a.get("copy") or {}).get("local") in (alias | discr) for a in t.get("args", [])):
+                # `drop(guard)` between the value and its test (`let r = f(); drop(lock); if r { .. }`)
                 chain.append((blk["stmts"], t))
                 cur = t["target"]
                 continue
@@ -690,6 +729,51 @@ def _mentions(body, ids):
 FN_TRAITS = ("ops::FnOnce", "ops::FnMut", "ops::Fn")
 
 
+def splice_std_models(raw):
+    """closure-taking std combinators (`Option::map_or`, `is_some_and`, `and_then`, `bool::then`, ...) at call sites that the pinned tree
+    does not have are replaced by their reference implementation (vf/std_models.json, compiled from /verif/stdmodels by the same
+    driver) -- which is then inlined like any other new helper, its closure argument devirtualised.  `x.is_some_and(|v| c(v))` is thereby
+    analysed as `match x { Some(v) => c(v), None => false }`.  Call sites the pinned tree already has (counted per function in
+    known_items.json) keep their call form, so that nothing changes for the tree the rules were written against."""
+    try:
+        with open(os.path.join(HERE, "std_models.json")) as f:
+            models = json.load(f)
+        with open(os.path.join(HERE, "known_items.json")) as f:
+            pinned = json.load(f).get("std_calls", {})
+    except Exception:
+        return set()
+    by_id = {b["id"]: b for b in raw["bodies"]}
+
+    def root_of(b):
+        while b.get("kind") == "Closure" and b.get("parent") in by_id:
+            b = by_id[b["parent"]]
+        return strip_generics(b["id"])
+    sites = {}
+    for b in raw["bodies"]:
+        r = root_of(b)
+        for blk in b["blocks"]:
+            t = blk["term"]
+            if t["k"] == "call" and t.get("callee") and t["callee"].get("def") in models:
+                sites.setdefault((r, t["callee"]["def"]), []).append(t)
+    used = set()
+    for (r, d), ts in sites.items():
+        if len(ts) <= pinned.get(r, {}).get(d, 0):
+            continue
+        mid = "stdmodel::" + d
+        for t in ts:
+            t["callee"] = dict(t["callee"], resolved=mid, std_model=True)
+        used.add(d)
+    for d in used:
+        m = copy.deepcopy(models[d])
+        m["id"] = "stdmodel::" + d
+        m["exported"] = False
+        m["reachable"] = False
+        m["impl"] = None
+        m["std_model"] = True
+        raw["bodies"].append(m)
+    return {"stdmodel::" + d for d in used}
+
+
 def direct_local_closures(raw):
     """closures that are only ever CALLED, directly, by the function that creates them (`let append = |..| {..}; append(a, b);`): local
     helpers spelt as closures.  Their call sites are rewritten into plain calls of the closure body -- the environment reference as first
@@ -707,8 +791,8 @@ def direct_local_closures(raw):
                     if cid in by_id and by_id[cid].get("parent") == P["id"]:
                         made.setdefault(cid, []).append(st["dst"]["local"])
         for cid, locs in made.items():
-            if len(locs) != 1:
-                continue
+            if len(set(locs)) != 1:
+                continue          # (the creating statement may exist in several copies after tail duplication)
             cl = locs[0]
             refs, ok, sites = set(), True, []
             # one pass to find references to the closure local, a second to classify every use
@@ -717,6 +801,20 @@ def direct_local_closures(raw):
                     if st["k"] == "assign" and "ref" in st["rv"] and st["rv"]["ref"]["local"] == cl and not st["rv"]["ref"]["proj"] and not st["dst"]["proj"]:
                         refs.add(st["dst"]["local"])
             holders = refs | {cl}
+            # ... and single-definition copies / moves of the closure (the parameter of an inlined combinator it was handed to)
+            grew = True
+            while grew:
+                grew = False
+                for blk in P["blocks"]:
+                    for st in blk["stmts"]:
+                        if st["k"] == "assign" and not st["dst"]["proj"] and st["dst"]["local"] not in holders and "use" in st["rv"]:
+                            pl0 = st["rv"]["use"].get("move") or st["rv"]["use"].get("copy")
+                            if pl0 and not pl0["proj"] and pl0["local"] in holders and pl0["local"] not in refs:
+                                nd = len({json.dumps(s2["rv"], sort_keys=True) for b2 in P["blocks"] for s2 in b2["stmts"]
+                                          if s2["k"] == "assign" and not s2["dst"]["proj"] and s2["dst"]["local"] == st["dst"]["local"]})
+                                if nd == 1:       # one definition (possibly in several copies after tail duplication)
+                                    holders.add(st["dst"]["local"])
+                                    grew = True
 
             def uses(o, acc):
                 if isinstance(o, dict):
@@ -738,6 +836,8 @@ def direct_local_closures(raw):
                             continue
                         if st["dst"]["local"] == cl and "agg" in st["rv"]:
                             continue
+                        if "use" in st["rv"] and len(acc) == 1 and not acc[0].get("proj"):
+                            continue          # a whole copy / move between holders
                         ok = False
                         continue
                     acc = []
@@ -754,8 +854,10 @@ def direct_local_closures(raw):
                 cal = t.get("callee") or {}
                 a0 = (t.get("args") or [{}])[0]
                 p0 = a0.get("move") or a0.get("copy") if isinstance(a0, dict) else None
-                if t["k"] == "call" and (cal.get("trait") or "").endswith(FN_TRAITS) and len(t.get("args", [])) == 2 and p0 and not p0["proj"] \
-                        and p0["local"] in holders and len(acc) == 1 and (cal.get("self_ty") or {}).get("head") == "closure:" + cid:
+                direct_form = (cal.get("trait") or "").endswith(FN_TRAITS) and (cal.get("self_ty") or {}).get("head") == "closure:" + cid
+                devirt_form = bool(cal.get("devirtualized_from")) and cal.get("def") == cid
+                if t["k"] == "call" and (direct_form or devirt_form) and len(t.get("args", [])) == 2 and p0 and not p0["proj"] \
+                        and p0["local"] in holders and len(acc) == 1:
                     sites.append((bi, t))
                 else:
                     ok = False
@@ -789,9 +891,150 @@ def direct_local_closures(raw):
     return out
 
 
+def resolve_closure_envs(body):
+    """after a directly called closure was inlined, its reads of captured variables -- `(*env).k` through the environment reference, or
+    `env.k` for a by-value environment -- are rewritten to the local that was captured (operand k of the closure aggregate), so that the
+    inlined body talks about the same `tab`, `idx`, `guard` as the function around it"""
+    made = {}
+    for blk in body["blocks"]:
+        for st in blk["stmts"]:
+            if st["k"] == "assign" and "agg" in st["rv"] and "closure" in st["rv"]["agg"] and not st["dst"]["proj"]:
+                caps = []
+                for o in st["rv"]["ops"]:
+                    pl = o.get("move") or o.get("copy")
+                    caps.append(pl["local"] if pl and not pl["proj"] else None)
+                made.setdefault(st["dst"]["local"], []).append(caps)
+    made = {k: v[0] for k, v in made.items() if all(x == v[0] for x in v)}
+    if not made:
+        return 0
+    ndefs = {}
+    seen_stmt = set()
+    for blk in body["blocks"]:
+        for st in blk["stmts"]:
+            if st["k"] == "assign" and not st["dst"]["proj"]:
+                key = (st["dst"]["local"], json.dumps(st["rv"], sort_keys=True))
+                if key in seen_stmt:
+                    continue
+                seen_stmt.add(key)
+                ndefs[st["dst"]["local"]] = ndefs.get(st["dst"]["local"], 0) + 1
+        t = blk["term"]
+        if t["k"] == "call" and t.get("dst") and not t["dst"]["proj"]:
+            ndefs[t["dst"]["local"]] = ndefs.get(t["dst"]["local"], 0) + 1
+    val, ref = {c: c for c in made}, {}
+    grew = True
+    while grew:
+        grew = False
+        for blk in body["blocks"]:
+            for st in blk["stmts"]:
+                if st["k"] != "assign" or st["dst"]["proj"] or ndefs.get(st["dst"]["local"]) != 1:
+                    continue
+                d, rv = st["dst"]["local"], st["rv"]
+                if "ref" in rv and not rv["ref"]["proj"] and rv["ref"]["local"] in val and d not in ref:
+                    ref[d] = val[rv["ref"]["local"]]
+                    grew = True
+                elif "ref" in rv and rv["ref"]["proj"] == ["deref"] and rv["ref"]["local"] in ref and d not in ref:
+                    ref[d] = ref[rv["ref"]["local"]]          # reborrow
+                    grew = True
+                elif "use" in rv:
+                    pl = rv["use"].get("move") or rv["use"].get("copy")
+                    if pl and not pl["proj"]:
+                        if pl["local"] in val and d not in val:
+                            val[d] = val[pl["local"]]
+                            grew = True
+                        elif pl["local"] in ref and d not in ref:
+                            ref[d] = ref[pl["local"]]
+                            grew = True
+    n = 0
+
+    def fix(o):
+        nonlocal n
+        if isinstance(o, dict):
+            if "local" in o and "proj" in o and isinstance(o["proj"], list):
+                l, pr = o["local"], o["proj"]
+                k = None
+                if l in ref and len(pr) >= 2 and pr[0] == "deref" and isinstance(pr[1], dict) and "field" in pr[1] and str(pr[1].get("of", "")).startswith("closure:"):
+                    k, rest, caps = pr[1]["field"], pr[2:], made[ref[l]]
+                elif l in val and l not in made and len(pr) >= 1 and isinstance(pr[0], dict) and "field" in pr[0] and str(pr[0].get("of", "")).startswith("closure:"):
+                    k, rest, caps = pr[0]["field"], pr[1:], made[val[l]]
+                if k is not None and k < len(caps) and caps[k] is not None:
+                    o["local"], o["proj"] = caps[k], rest
+                    n += 1
+            for v in o.values():
+                fix(v)
+        elif isinstance(o, list):
+            for x in o:
+                fix(x)
+    fix(body["blocks"])
+    return n
+
+
 def inline_new_helpers(raw, log=None):
-    """rewrite raw['bodies'] in place; returns the list of helper ids that were inlined away"""
+    """rewrite raw['bodies'] in place; returns the list of helper ids that were inlined away.  Two passes: helpers, std combinator models
+    and directly called local closures first; then the closures that the first pass turned into direct calls (the closure argument of an
+    expanded combinator)."""
+    gone = set(_inline_pass(raw, True))
+    # std combinators are counted, and expanded, in the functions the helpers ended up in (a helper that carries the pinned
+    # `map(..).unwrap_or(true)` of replace_node with it does not make that call site a new one)
+    try:
+        raw["std_models_used"] = sorted(splice_std_models(raw))
+    except Exception:
+        raw["std_models_used"] = []
+    for _ in range(2):
+        if raw.get("std_models_used") or any((blk["term"].get("callee") or {}).get("devirtualized_from") for b in raw["bodies"] for blk in b["blocks"]):
+            gone |= set(_inline_pass(raw, False))
+    gone = sorted(gone)
+    raw["inlined_helpers"] = gone
+    if log is not None:
+        log(gone)
+    return gone
+
+
+def resolve_unique_trait_impls(raw, known):
+    """a call of a method of a crate trait that the pinned tree does not have (`trait BinEntryExt`), made on `Self` or a type parameter,
+    is resolved to the method's only implementation in the crate when there is exactly one"""
+    def is_new_trait(t):
+        if not t or not t.startswith(CRATE_MODS):
+            return False
+        return not any(("as %s" % t) in k or k.startswith(t + "::") for k in known)
+    impls = {}
+    for b in raw["bodies"]:
+        imp = b.get("impl") or {}
+        if imp.get("trait") and is_new_trait(imp["trait"]):
+            impls.setdefault((imp["trait"], b.get("name")), []).append(b["id"])
+    n = 0
+    for b in raw["bodies"]:
+        for blk in b["blocks"]:
+            t = blk["term"]
+            cal = t.get("callee") if t["k"] == "call" else None
+            if not cal or cal.get("resolved") or not is_new_trait(cal.get("trait")):
+                continue
+            c = impls.get((cal["trait"], cal.get("name")), [])
+            if len(c) == 1:
+                cal["resolved"] = c[0]
+                cal["resolved_unique_impl"] = True
+                n += 1
+    return n
+
+
+def _inline_pass(raw, first):
     known = known_functions()
+    if first:
+        try:
+            resolve_unique_trait_impls(raw, known)
+        except Exception:
+            pass
+        # `matches!(s, 0 | WAITER)` and friends: a constant flag set on each arm of a match and tested right after the join is threaded
+        # to the branch structure it stands for, in every body
+        for b in raw["bodies"]:
+            try:
+                sroa(b)          # `(self.index, n) = (frame.index, frame.length)`: a tuple built only to be taken apart
+                for _ in range(2):
+                    if not thread_known_returns(b, raw.get("adts", {})):
+                        break
+            except Exception:
+                pass
+    bodies = raw["bodies"]
+    by_id = {b["id"]: b for b in bodies}
     bodies = raw["bodies"]
     by_id = {b["id"]: b for b in bodies}
     try:
@@ -812,7 +1055,11 @@ def inline_new_helpers(raw, log=None):
             # introduced next to the existing code) are helpers like any other where the call resolves statically -- except Drop, which
             # runs implicitly
             imp = b["impl"]
-            if imp.get("trait") in ("std::ops::Drop", "core::ops::Drop") or imp.get("self_head") in KNOWN_ADTS or not imp.get("self_head", "").startswith(CRATE_MODS):
+            new_trait = str(imp.get("trait", "")).startswith(CRATE_MODS) and not any(
+                ("as %s" % imp["trait"]) in k or k.startswith(imp["trait"] + "::") for k in known)
+            if imp.get("trait") in ("std::ops::Drop", "core::ops::Drop"):
+                continue
+            if not new_trait and (imp.get("self_head") in KNOWN_ADTS or not imp.get("self_head", "").startswith(CRATE_MODS)):
                 continue
         if strip_generics(b["id"]) in known or strip_generics(b["id"]) in alias:
             continue
@@ -864,6 +1111,8 @@ def inline_new_helpers(raw, log=None):
     for b in bodies:
         if b.get("inlined"):
             try:
+                if any(r in direct for r in b["inlined"]):
+                    resolve_closure_envs(b)
                 sroa(b)
             except Exception:      # the transformation is an optimisation of precision only
                 pass
@@ -881,7 +1130,5 @@ def inline_new_helpers(raw, log=None):
         still |= {r for _, r in _call_targets(b, ids)}
     gone = sorted(ids - still)
     raw["bodies"] = [b for b in bodies if b["id"] not in set(gone)]
-    raw.setdefault("inlined_helpers", gone)
-    if log is not None:
-        log(gone)
+    raw["inlined_helpers"] = sorted(set(raw.get("inlined_helpers", [])) | set(gone))
     return gone
